@@ -736,22 +736,28 @@ func BackSlice(v ssa.Value, visit func(ssa.Value) bool) {
 				walk(b)
 			}
 		case *ssa.Alloc:
-			for _, r := range Referrers(x) {
-				if st, ok := r.(*ssa.Store); ok && st.Addr == x {
-					walk(st.Val)
-				}
-				// element / field stores into the allocated aggregate
-				if sub, ok := r.(ssa.Value); ok {
-					switch sub.(type) {
-					case *ssa.IndexAddr, *ssa.FieldAddr:
-						for _, r2 := range Referrers(sub) {
-							if st, ok := r2.(*ssa.Store); ok && st.Addr == sub {
-								walk(st.Val)
+			var into func(addr ssa.Value, depth int)
+			into = func(addr ssa.Value, depth int) {
+				for _, r := range Referrers(addr) {
+					if st, ok := r.(*ssa.Store); ok && st.Addr == addr {
+						walk(st.Val)
+					}
+					// element / field stores into the allocated aggregate (nested)
+					if sub, ok := r.(ssa.Value); ok && depth < 6 {
+						switch y := sub.(type) {
+						case *ssa.IndexAddr:
+							if y.X == addr {
+								into(sub, depth+1)
+							}
+						case *ssa.FieldAddr:
+							if y.X == addr {
+								into(sub, depth+1)
 							}
 						}
 					}
 				}
 			}
+			into(x, 0)
 		}
 	}
 	walk(v)
